@@ -279,6 +279,10 @@ PROFILES = {
 }
 
 
+# properties whose history patterns need several steps at ONE location (index made, used, product redelivered, index made again, used)
+TRACE_LOCS = {"C07": ("P",), "C06": ("P",), "C09": ("P",), "C12": ("P",), "C13": ("P",)}
+
+
 def standard(chk):
     """the session part of a registered check: histories in one process, judged for the classes the property owns"""
     from . import sessiontrace
@@ -287,7 +291,7 @@ def standard(chk):
     prof, vers = PROFILES[chk.pid]
     own = {c for c, ps in OWNERS.items() if chk.pid in ps}
     nt, st = (16, 40) if chk.tier == "quick" else (160, 60)
-    sessiontrace.run(chk, nt, st, own, profile=prof, versions=vers)
+    sessiontrace.run(chk, nt, st, own, profile=prof, versions=vers, locs=TRACE_LOCS.get(chk.pid, ("P", "Q")))
     for cfg, pats, need, locs, nsim, keep, depth in STANDARD[chk.pid]:
         q = 0 if chk.tier == "quick" else 1
         versions = (0,) if cfg in ("MC_Alos2_sim_loads", "MC_Alos2_sim_mutate") else (0, 1)
